@@ -2,3 +2,32 @@
 #[allow(unused_imports)]
 use super::*;
 include!("/verif/replay/in_crate/common.rs");
+
+/// C10: GoldenTicket::deserialize_from_net is fed `transaction.data` of peer-supplied golden-ticket transactions
+#[test]
+fn decoder_total() {
+    let mut rng = Rng::from_env();
+    for len in (0..200usize).chain([97usize].into_iter()) {
+        let b = rng.bytes(len);
+        let prev = std::panic::take_hook();
+        std::panic::set_hook(Box::new(|_| {}));
+        let b2 = b.clone();
+        let r = std::panic::catch_unwind(move || GoldenTicket::deserialize_from_net(&b2));
+        std::panic::set_hook(prev);
+        match r {
+            Err(_) => witness(format!("GoldenTicket::deserialize_from_net panicked on a {}-byte payload", len)),
+            Ok(gt) => { if gt.serialize_for_net() != b { witness(format!("golden ticket round trip differs for {} bytes", len)); } }
+        }
+    }
+}
+
+#[test]
+fn roundtrip() {
+    let mut rng = Rng::from_env();
+    for _ in 0..500 {
+        let gt = GoldenTicket::new(rng.arr(), rng.arr(), rng.arr());
+        let b = gt.serialize_for_net();
+        let d = GoldenTicket::deserialize_from_net(&b);
+        if b.len() != 97 || d.target != gt.target || d.random != gt.random || d.public_key != gt.public_key { witness("golden ticket does not round trip".to_string()); }
+    }
+}
